@@ -152,6 +152,10 @@ func (f *Formatter) formatComment(comments ast.Comments, sep string, level int) 
 		if comments[i].PreviousEmptyLines > 0 {
 			buf.WriteString("\n")
 		}
+		// Successive comments printed without separator are divided by a whitespace
+		if sep == "" && i > 0 {
+			buf.WriteString(" ")
+		}
 		// #FASTLY macros are not indented
 		isMacro := strings.HasPrefix(comments[i].String(), "#FASTLY")
 		if !isMacro {
